@@ -359,6 +359,14 @@ def run(ctx):
     _ly.check_stores(ctx, _spec, 'asefile::layer::parse_chunk', 'LAYER', _bl, rule='W6')
     # W6: the laws are stated over (layer opacity, cel opacity); both rasterisers must hand their product to the blend function
     render.opacity_and_mode(ctx, rule_o='W6', rule_m=None)
+    import C06 as _c06l
+    _c06l.link_resolution(ctx, 'W6')       # .. of the cel that is drawn: a linked cel takes its target's opacity (seed C17-o)
+    # .. and that opacity is the byte the cel chunk stores, every value of it (seed C17-p read 0 as "not set" = 255)
+    import spec as _SP
+    import layout as _lay
+    _spec = _SP.load_spec()
+    _bnd, _ = _lay.check_layout(ctx, _spec, 'asefile::cel::parse_chunk', 'CEL', rule='W6')
+    _lay.check_stores(ctx, _spec, 'asefile::cel::parse_chunk', 'CEL', _bnd, rule='W6')
     # and no pixel is exempted from the blend function by anything but the canvas clip (an 'identity shortcut' in the rasteriser
     # bypasses every law above)
     render.no_extra_skips(ctx, rule='W6')
